@@ -136,11 +136,13 @@ def check(ctx):
         ok, out, diag = vlib.run_harness_sharded(hb, ["polls"], lines, timeout=1500)
         ctx.oblige("harness:polls", "search", ok, diag)
         stage_names = ["vm", "lift", "assign", "infer"]
+        at1 = {}
         for code, l in zip(codes, out):
             m = re.match(r"XP \[([\d;]*)\] (\d)", l)
             if not m or m.group(2) != "0" or not m.group(1):
                 continue
             v = [int(x) for x in m.group(1).split(";")]
+            at1[code] = v
             evals += 1
             for si, name in enumerate(stage_names):
                 polls, work = v[2 * si], v[2 * si + 1]
@@ -150,6 +152,30 @@ def check(ctx):
                                 {"code": code.hex(), "stage": name, "polls": polls, "work": work})
             if v[7] > 0 and v[8] < 1:      # values to unify, yet no poll at all
                 ctx.violate("C13:poll-rate:unify:%s" % code.hex()[:32], "unification/layout made no poll", {"code": code.hex()})
+        # 4. the same stages at larger intervals: at interval 1 every iteration of every polled loop polls, so the polls
+        #    made then ARE the iteration count N of the stage; "polls once per p iterations" requires at least N div p polls
+        #    (each loop with its own counter makes ceil(n_i/p); the sum is >= floor(N/p))
+        rate_checked = 0
+        for p in ([3, 7, 100] if ctx.quick else [2, 3, 7, 10, 100, 1000]):
+            lines = [gen.vm_line(code, cfg, poll_every=p) for code in codes]
+            ok, out, diag = vlib.run_harness_sharded(hb, ["polls"], lines, timeout=1500)
+            ctx.oblige("harness:polls:%d" % p, "search", ok, diag)
+            for code, l in zip(codes, out):
+                m = re.match(r"XP \[([\d;]*)\] (\d)", l)
+                if not m or m.group(2) != "0" or not m.group(1) or code not in at1:
+                    continue
+                v = [int(x) for x in m.group(1).split(";")]
+                evals += 1
+                for name, i in (("vm", 0), ("lift", 2), ("assign", 4), ("infer", 6), ("unify", 8)):
+                    n1, np_ = at1[code][i], v[i]
+                    rate_checked += 1
+                    if np_ < n1 // p:
+                        ctx.violate("C13:poll-rate:%s:p%d:%s" % (name, p, code.hex()[:32]),
+                                    "stage %s ran %d loop iterations (polls at interval 1) but polled only %d times at interval %d (< %d)"
+                                    % (name, n1, np_, p, n1 // p),
+                                    {"code": code.hex(), "config": list(cfg), "stage": name, "interval": p, "iterations": n1, "polls": np_,
+                                     "how": "echo '<code> 30000000 3 5 250 394 1 <interval> -1' | build/harness-target/debug/slxh polls"})
+        ctx.coverage["stage_poll_rates_checked"] = rate_checked
         ctx.coverage.update({"evaluations": evals, "distinct_nontrivial": nontrivial,
                              "programs": len(codes), "intervals": intervals,
                              "stage_in_which_the_stop_landed": dict(stopped_stage),
